@@ -19,6 +19,11 @@
   operations. The region where it holds is `stepOk` (decidable, on the git facts of the operation); each excluded
   family has a negation witness below, replayed on the binary by the twin run (known_findings.json, C13
   `modes-differ:<op>`).
+
+  Repaired in /repo and moved INTO the region (regression theorems below): a rebase with nothing to replay no longer
+  leaves the hook mask on (52b736f3: `regression_noop_rebase_restores_mask`, `RebaseFacts.noop` admitted by `Op.wf` /
+  `Op.agree` / `Op.clears`); after `rebase --abort` the first checkpoint restores the masked entry points (bdec53b6:
+  `Op.agentCheckpoint`, `checkpoint_after_abort_restores`, `regression_commit_after_abort`).
 -/
 import GitAiModel.Lemmas.HookMode
 import GitAiModel.Base.Chars
@@ -78,33 +83,34 @@ theorem events_equal_partial (sW sH : St) (op : Op) (h : stepOk sW sH op = true)
     hm_simp
   | rebaseStop r =>
     have hs' : sH.side = {} := by simpa [sideOk] using hs
-    have hwl : r.wlAtOrig = false := by simpa [Op.agree] using hag
-    simp only [hooks, fires, Op.backward, Op.heal, rebase_start sH r hs', wrapper, wrapperEffs]
+    have hag' : r.wlAtOrig = false ∧ r.autostash = false := by simpa [Op.agree] using hag
+    have hwl := hag'.1
+    simp only [hooks, fires, Op.backward, Op.heal, rebase_start sH r hs' hag'.2, wrapper, wrapperEffs]
     split <;> simp [canon, hwl]
   | rebase r =>
     have hs' : sH.side = {} := by simpa [sideOk] using hs
-    have hwl : r.wlAtOrig = false := by
-      have : (r.aligned || r.noop) = true ∧ r.wlAtOrig = false := by simpa [Op.agree] using hag
-      exact this.2
+    have hag3 : ((r.aligned || r.noop) = true ∧ r.wlAtOrig = false) ∧ r.autostash = false := by simpa [Op.agree] using hag
+    have hwl : r.wlAtOrig = false := hag3.1.2
+    have ha : r.autostash = false := hag3.2
     by_cases hn : r.noop = true
     · -- nothing to replay: Start logged, the (absent) working log renamed; the wrapper finds no new commits
       obtain ⟨hp, hi, hnc, hon, hne⟩ := noop_parts hn
       have hev : fires (.rebase r) = rebaseStartEvs r false true ++ rebaseEndEvs { r with pairs := [] } false := by
         simp [fires, RebaseFacts.todoEmpty, hp, hi, rebaseEndEvs]
-      simp only [hooks, hev, Op.backward, Op.heal, rebase_noop sH r hs' hi, wrapper, wrapperEffs, wrapperRebaseDone, hnc]
+      simp only [hooks, hev, Op.backward, Op.heal, rebase_noop sH r hs' hi ha, wrapper, wrapperEffs, wrapperRebaseDone, hnc]
       split <;> simp [canon, hwl]
     · have hw : r.wf = true := by
         have : (r.wf || r.noop) = true := by simpa [Op.wf] using hwf
         cases h : r.wf <;> simp_all
       have hal : r.aligned = true := by
-        have : (r.aligned || r.noop) = true ∧ r.wlAtOrig = false := by simpa [Op.agree] using hag
+        have := hag3.1.1
         cases h : r.aligned <;> simp_all
       obtain ⟨p, hp, hp1, hm1, hm2⟩ := aligned_last hw hal
       have hte : r.todoEmpty = false := by
         cases hq : r.pairs with
         | nil => simp [hq] at hp
         | cons a b => simp [RebaseFacts.todoEmpty, hq]
-      simp only [hooks, fires, hte, Op.backward, Op.heal, invokeAll_append, rebase_start sH r hs', wrapper, wrapperEffs]
+      simp only [hooks, fires, hte, Op.backward, Op.heal, invokeAll_append, rebase_start sH r hs' ha, wrapper, wrapperEffs]
       rw [rebase_end _ r rfl p hp]
       simp only [RebaseFacts.wf, Bool.and_eq_true, bne_iff_ne, ne_eq, Bool.not_eq_true', beq_iff_eq] at hw
       obtain ⟨⟨⟨⟨⟨h1, h2⟩, h3⟩, h4⟩, h5⟩, h6⟩ := hw
@@ -137,14 +143,16 @@ theorem events_equal_partial (sW sH : St) (op : Op) (h : stepOk sW sH op = true)
     hm_simp
   | pullRebase r =>
     have hs' : sH.side = {} := by simpa [sideOk] using hs
-    have hwl : r.wlAtOrig = false := by simpa [Op.agree] using hag
+    have hag' : r.wlAtOrig = false ∧ r.autostash = false := by simpa [Op.agree] using hag
+    have hwl := hag'.1
+    have ha := hag'.2
     by_cases hn : r.noop = true
     · -- every local commit already upstream: the working log (absent) moves to the new head, nothing to map
       obtain ⟨hp, hi, hnc, hon, hne⟩ := noop_parts hn
       have hev : fires (.pullRebase r) = rebaseStartEvs r true true ++ rebaseEndEvs { r with pairs := [] } true := by
         simp [fires, RebaseFacts.todoEmpty, hp, hi, rebaseEndEvs]
       have hne' : r.orig ≠ r.onto := by rw [← hon]; exact hne
-      simp only [hooks, hev, Op.backward, Op.heal, pull_rebase_noop sH r hs' hi hne', wrapper, wrapperEffs, hnc]
+      simp only [hooks, hev, Op.backward, Op.heal, pull_rebase_noop sH r hs' hi hne' ha, wrapper, wrapperEffs, hnc]
       simp [canon, hwl, hne]
     · have hw : r.wf = true := by
         have : (r.wf || r.noop) = true := by simpa [Op.wf] using hwf
@@ -153,7 +161,7 @@ theorem events_equal_partial (sW sH : St) (op : Op) (h : stepOk sW sH op = true)
       simp only [RebaseFacts.wf, Bool.and_eq_true, bne_iff_ne, ne_eq, Bool.not_eq_true', beq_iff_eq] at hw'
       obtain ⟨⟨⟨⟨⟨h1, h2⟩, h3⟩, h4⟩, h5⟩, h6⟩ := hw'
       have hte : r.todoEmpty = false := by simp [RebaseFacts.todoEmpty, h6]
-      simp only [hooks, fires, hte, Op.backward, Op.heal, invokeAll_append, pull_rebase_start sH r hs', wrapper, wrapperEffs]
+      simp only [hooks, fires, hte, Op.backward, Op.heal, invokeAll_append, pull_rebase_start sH r hs' ha, wrapper, wrapperEffs]
       rw [pull_rebase_end _ r rfl h6 hw]
       simp [h3, h4, h5, hwl, canon, canonEv]
   | cherryPick hd ps =>
@@ -251,7 +259,7 @@ theorem picks_side (multi : Bool) (ps : List (Sha × Sha)) (prev : Sha) (st : St
     rebase is stopped -/
 def Op.clears : Op → Bool
   | .rebaseStop _ | .rebaseAbort _ => false
-  | .rebase r | .pullRebase r => !r.pairs.isEmpty || r.noop
+  | .rebase r | .pullRebase r => (!r.pairs.isEmpty || r.noop) && !r.autostash
   | .rebaseContinue r => !r.pairs.isEmpty
   | .agentCheckpoint rb => !rb
   | _ => true
@@ -269,17 +277,22 @@ theorem side_state_cleared_partial (sH : St) (op : Op) (hs : sideOk sH.side op =
     rcases hs' with hs' | hs' <;> hm_simp
   | rebase r =>
     have hs' : sH.side = {} := by simpa [sideOk] using hs
+    have hc' : (r.pairs.isEmpty = false ∨ r.noop = true) ∧ r.autostash = false := by simpa [Op.clears] using hc
+    have ha := hc'.2
     by_cases hn : r.noop = true
     · obtain ⟨hp, hi, hnc, hon, hne⟩ := noop_parts hn
       have hev : fires (.rebase r) = rebaseStartEvs r false true ++ rebaseEndEvs { r with pairs := [] } false := by
         simp [fires, RebaseFacts.todoEmpty, hp, hi, rebaseEndEvs]
-      simp only [hooks, hev, Op.backward, Op.heal, rebase_noop sH r hs' hi]
-    · have hne : r.pairs.isEmpty = false := by simpa [Op.clears, hn] using hc
+      simp only [hooks, hev, Op.backward, Op.heal, rebase_noop sH r hs' hi ha]
+    · have hne : r.pairs.isEmpty = false := by
+        rcases hc'.1 with h | h
+        · exact h
+        · exact absurd h hn
       have hte : r.todoEmpty = false := by simp [RebaseFacts.todoEmpty, hne]
       cases hl : r.pairs.getLast? with
       | none => cases hp : r.pairs <;> simp_all
       | some p =>
-        simp only [hooks, fires, hte, Op.backward, Op.heal, invokeAll_append, rebase_start sH r hs']
+        simp only [hooks, fires, hte, Op.backward, Op.heal, invokeAll_append, rebase_start sH r hs' ha]
         rw [rebase_end _ r rfl p hl]
   | rebaseContinue r =>
     have hs' : sH.side = { mask := true } := by simpa [sideOk] using hs
@@ -292,15 +305,20 @@ theorem side_state_cleared_partial (sH : St) (op : Op) (hs : sideOk sH.side op =
       rw [rebase_end _ r hs' p hl]
   | pullRebase r =>
     have hs' : sH.side = {} := by simpa [sideOk] using hs
+    have hc' : (r.pairs.isEmpty = false ∨ r.noop = true) ∧ r.autostash = false := by simpa [Op.clears] using hc
+    have ha := hc'.2
     by_cases hn : r.noop = true
     · obtain ⟨hp, hi, hnc, hon, hne⟩ := noop_parts hn
       have hev : fires (.pullRebase r) = rebaseStartEvs r true true ++ rebaseEndEvs { r with pairs := [] } true := by
         simp [fires, RebaseFacts.todoEmpty, hp, hi, rebaseEndEvs]
       have hne' : r.orig ≠ r.onto := by rw [← hon]; exact hne
-      simp only [hooks, hev, Op.backward, Op.heal, pull_rebase_noop sH r hs' hi hne']
-    · have hne : r.pairs.isEmpty = false := by simpa [Op.clears, hn] using hc
+      simp only [hooks, hev, Op.backward, Op.heal, pull_rebase_noop sH r hs' hi hne' ha]
+    · have hne : r.pairs.isEmpty = false := by
+        rcases hc'.1 with h | h
+        · exact h
+        · exact absurd h hn
       have hte : r.todoEmpty = false := by simp [RebaseFacts.todoEmpty, hne]
-      simp only [hooks, fires, hte, Op.backward, Op.heal, invokeAll_append, pull_rebase_start sH r hs']
+      simp only [hooks, fires, hte, Op.backward, Op.heal, invokeAll_append, pull_rebase_start sH r hs' ha]
       hm_simp
       by_cases h1 : r.orig = r.newHead
       · simp [h1]
@@ -361,9 +379,9 @@ theorem side_state_cleared_partial (sH : St) (op : Op) (hs : sideOk sH.side op =
     hm_simp
 
 /-- while a rebase is stopped the mask is on and nothing else is set -/
-theorem rebase_stop_masks (sH : St) (r : RebaseFacts) (hs : sH.side = {}) :
+theorem rebase_stop_masks (sH : St) (r : RebaseFacts) (hs : sH.side = {}) (ha : r.autostash = false) :
     (hooks sH (.rebaseStop r)).1.side = { mask := true } := by
-  simp only [hooks, fires, Op.backward, Op.heal, rebase_start sH r hs]
+  simp only [hooks, fires, Op.backward, Op.heal, rebase_start sH r hs ha]
 
 /-- **witness (excluded region of `side_state_cleared`)**: `git rebase --abort` fires no hook that is still
     installed, so the mask — every managed hook except post-rewrite / post-checkout renamed away — stays on … -/
@@ -441,14 +459,18 @@ def Op.complete : Op → Bool
   | .agentCheckpoint rb => !rb
   | _ => true
 
-theorem complete_clears {op : Op} (hc : op.complete = true) (hw : op.wf = true) : op.clears = true := by
+theorem complete_clears {op : Op} (hc : op.complete = true) (hw : op.wf = true) (hag : op.agree = true) :
+    op.clears = true := by
   cases op with
   | rebase r | pullRebase r =>
+    have ha : r.autostash = false := by
+      simp only [Op.agree, Bool.and_eq_true, Bool.not_eq_true'] at hag
+      exact hag.2
     simp only [Op.wf, Bool.or_eq_true] at hw
     rcases hw with hw | hw
     · simp only [RebaseFacts.wf, Bool.and_eq_true, Bool.not_eq_true'] at hw
-      simp [Op.clears, hw.2]
-    · simp [Op.clears, hw]
+      simp [Op.clears, hw.2, ha]
+    · simp [Op.clears, hw, ha]
   | _ => simp_all [Op.complete, Op.clears, Op.wf]
 
 /-- `good` follows from per-operation facts alone for sequences of complete commands: each is well-formed and
@@ -465,7 +487,7 @@ theorem good_of_complete (ops : List Op) (sW sH : St) (hs : sH.side = {})
       | _ => simp_all [sideOk, Op.complete]
     have hjo : journalOk sW.journal op = true := by cases op <;> simp_all [journalOk, Op.complete]
     simp only [good, stepOk, hw, ha, hso, hjo, Bool.and_self, Bool.true_and]
-    exact ih _ _ (side_state_cleared_partial sH op hso (complete_clears hc hw))
+    exact ih _ _ (side_state_cleared_partial sH op hso (complete_clears hc hw ha))
       (fun o ho => h o (List.mem_cons_of_mem _ ho))
 
 /-- corollary: for every sequence of complete, well-formed, agreeing commands both modes compute the same -/
@@ -614,6 +636,25 @@ theorem witness_rebase_squash :
     canon (wrapper St.init (.rebase { exDrop with pairs := [(2, 6), (3, 6), (4, 7)] })).2 = [.ev (.rebase 4 7 [2, 3, 4] [6, 7])] := by
   decide
 
+/-- pending attributions carried over a rebase by `--autostash`: hooks mode moves the working log of the old tip to
+    the new BASE at the checkout inside the rebase (the managed post-checkout arm treats it as a branch switch), so
+    the shared handler's migration from the old tip to the new tip finds nothing and the next commit loses the
+    pending AI lines (replayed on the binary: known finding `modes-differ:rebase-autostash`) -/
+theorem witness_rebase_autostash :
+    canon (hooks St.init (.rebase { exRebase with wlAtOrig := true, autostash := true })).2 =
+      [.act (.renameWL 3 5 true), .ev (.rebase 3 7 [2, 3] [6, 7])] ∧
+    canon (wrapper St.init (.rebase { exRebase with wlAtOrig := true, autostash := true })).2 =
+      [.ev (.rebase 3 7 [2, 3] [6, 7])] := by decide
+/-- `pull --rebase --autostash`: hooks mode renames the working log to the new head itself BEFORE the shared handler
+    runs (which then sees a working log at the new head and none at the old one); the wrapper leaves the move to the
+    handler — the carried lines are attributed alike, the prompt record's total_additions differs
+    (known finding `modes-differ:pull-rebase-autostash`) -/
+theorem witness_pull_rebase_autostash :
+    canon (hooks St.init (.pullRebase { exRebase with wlAtOrig := true, autostash := true })).2 =
+      [.act (.renameWL 3 7 true), .ev (.rebase 3 7 [2, 3] [6, 7])] ∧
+    canon (wrapper St.init (.pullRebase { exRebase with wlAtOrig := true, autostash := true })).2 =
+      [.ev (.rebase 3 7 [2, 3] [6, 7])] := by decide
+
 /-- a multi-commit cherry-pick: one batch event (wrapper) vs one event per commit (hooks mode finalises the
     batch state after every commit) -/
 theorem witness_cherry_pick_batch :
@@ -666,6 +707,8 @@ theorem witness_stash_push_unrecorded :
 #print axioms witness_rebase_drop
 #print axioms witness_rebase_squash
 #print axioms witness_cherry_pick_batch
+#print axioms witness_rebase_autostash
+#print axioms witness_pull_rebase_autostash
 #print axioms witness_reset_unrecorded
 #print axioms witness_reset_hard_same_head
 #print axioms witness_reset_forward
